@@ -523,3 +523,17 @@ func VarIdentity(v ssa.Value) ssa.Value {
 	}
 	return nil
 }
+
+// StoreInstrsInto: the store instructions that write the variable a itself (not its fields / elements).
+func StoreInstrsInto(a *ssa.Alloc) []*ssa.Store {
+	var out []*ssa.Store
+	if a.Referrers() == nil {
+		return nil
+	}
+	for _, r := range *a.Referrers() {
+		if st, ok := r.(*ssa.Store); ok && st.Addr == ssa.Value(a) {
+			out = append(out, st)
+		}
+	}
+	return out
+}
